@@ -54,7 +54,16 @@ static std::string norm(const char *p) {
 static time_t vnow() { return S.base_time + (time_t)(S.vus / 1000000); }
 static void touch(const std::string &p) { mtimes[p] = vnow(); if (S.fs_log) ev("mt %s %ld", pct_enc(p).c_str(), (long)mtimes[p]); }
 void files_set_mtime(const std::string &p, time_t t) { mtimes[norm(p.c_str())] = t; if (S.fs_log) ev("mt %s %ld", pct_enc(norm(p.c_str())).c_str(), (long)t); }
-void files_arm_stop(long n, bool once) { mut_calls = 0; stop_at = n; stopped = false; stop_once = once; }
+static long torn_permille = -1;                 // >=0: the write that fails first still gets this share of its bytes onto the disk (a torn write)
+void files_arm_stop(long n, bool once, long torn) { mut_calls = 0; stop_at = n; stopped = false; stop_once = once; torn_permille = torn; }
+// the failing write call itself: part of its data reaches the file before the error (only the first failing call tears)
+static void torn_write(int fd, const char *path, const void *buf, size_t n, bool was_stopped) {
+  if (torn_permille < 0 || was_stopped || n == 0) return;
+  size_t k = (size_t)((unsigned long long)n * (unsigned long long)torn_permille / 1000ULL);
+  if (k >= n) k = n - 1;
+  if (k) { ssize_t r = __real_write(fd, buf, k); (void)r; }
+  ev("fs_torn %s kept=%zu of=%zu", path, k, n); S.stats["fs_torn_writes"]++;
+}
 long files_mut_calls() { return mut_calls; }
 // several driver lives over one scratch directory (plan step "restart"): the simulated mtimes survive in a file
 void files_save_state(const std::string &path) {
@@ -78,7 +87,7 @@ void files_load_state(const std::string &path) {
     i = j + 1;
   }
 }
-void files_reset() { rt_short_read = -1; rt_eio_in = -1; fdpath.clear(); cookie_fd.clear(); mtimes.clear(); mut_calls = 0; stop_at = -1; stopped = false; stop_once = false; read_calls = 0; }
+void files_reset() { rt_short_read = -1; rt_eio_in = -1; fdpath.clear(); cookie_fd.clear(); mtimes.clear(); mut_calls = 0; stop_at = -1; stopped = false; stop_once = false; torn_permille = -1; read_calls = 0; }
 
 // returns true if this mutating call must fail (the disk has stopped)
 static bool mutating(const char *op, const char *path) {
@@ -158,7 +167,8 @@ ssize_t files_read(int fd, void *buf, size_t n) {
 ssize_t files_write(int fd, const void *buf, size_t n) {
   auto it = fdpath.find(fd);
   if (it == fdpath.end() || !active()) return __real_write(fd, buf, n);
-  if (mutating("write", it->second.c_str())) return -1;
+  bool was = stopped;
+  if (mutating("write", it->second.c_str())) { int e = errno; torn_write(fd, it->second.c_str(), buf, n, was); errno = e; return -1; }
   touch(it->second);
   return __real_write(fd, buf, n);
 }
@@ -174,7 +184,8 @@ struct Cookie { int fd; std::string path; bool w; };
 static ssize_t ck_read(void *c, char *buf, size_t n) { Cookie *k = (Cookie *)c; return files_read(k->fd, buf, n); }
 static ssize_t ck_write(void *c, const char *buf, size_t n) {
   Cookie *k = (Cookie *)c;
-  if (mutating("write", k->path.c_str())) return 0;
+  bool was = stopped;
+  if (mutating("write", k->path.c_str())) { torn_write(k->fd, k->path.c_str(), buf, n, was); return 0; }
   touch(k->path);
   ssize_t r = __real_write(k->fd, buf, n);
   return r < 0 ? 0 : r;
